@@ -157,95 +157,140 @@ def condSection (sec : String) (r : Rec) : Res Bool :=
   (condEq r [(0, sec), (1, "Data")]).bind (fun b =>
     if !b then .ok false else (fld r 2).bind (fun c => .ok (!hasPrefix c "Total")))
 
-/-- `readLine`: the first matching parser handles the record; unmatched records are skipped -/
-def step (a : Accts) (st : St) (r : Rec) : Res (St × List Directive) := do
-  -- parseBaseCurrency
-  if ← condEq r [(0, "Account Information"), (1, "Data"), (2, "Base Currency")] then
-    let v ← fld r 3
-    let c ← getCommodity v
-    return ({ st with base := some c }, [])
-  -- parseDate
-  if ← condEq r [(0, "Statement"), (1, "Data"), (2, "Period")] then
-    let v ← fld r 3
-    let parts := (splitOnChars " - ".toList v.toList).map String.ofList
-    let d0 ← fld parts 0
-    let _ ← Res.ofOption (parseDate layoutLong d0)
-    let d1 ← fld parts 1
-    let dateTo ← Res.ofOption (parseDate layoutLong d1)
-    return ({ st with dateTo := dateTo }, [])
-  -- parseForex
-  if ← condEq r [(0, "Trades"), (1, "Data"), (2, "Order"), (3, "Forex")] then
-    match st.base with
-    | none => .error
-    | some base =>
-      let cur ← (fld r 4).bind getCommodity
-      let sym ← fld r 5
-      let stock ← getCommodity (String.ofList ((sym.toList).takeWhile (· != '.')))
-      let d ← (fld r 6).bind (parseDatePrefix10 layoutYMD)
-      let qty ← (fld r 7).bind rounded
-      let price ← (fld r 8).bind (fun s => Res.ofOption (parseDecimalComma s))
-      let proceeds ← (fld r 10).bind rounded
-      let fee ← (fld r 11).bind rounded
-      let ps : List PB := [⟨a.trading, a.account, stock, qty⟩, ⟨a.trading, a.account, cur, proceeds⟩] ++
-        (if fee = 0 then [] else [⟨a.fee, a.account, base, fee⟩])
-      return (st, [mkTx d (tradeDesc qty stock price cur) ps (some [stock, cur])])
-  -- parseTrade
-  if ← condEq r [(0, "Trades"), (1, "Data"), (2, "Order"), (3, "Stocks")] then
+/-- result of one of `readLine`'s parsers: `some` = the record was handled (new state, directives added) -/
+abbrev Out := Option (St × List Directive)
+
+/-- `parseBaseCurrency` -/
+def parseBaseCurrency (st : St) (r : Rec) : Res Out := do
+  let b ← condEq r [(0, "Account Information"), (1, "Data"), (2, "Base Currency")]
+  if !b then pure none else do
+  let v ← fld r 3
+  let c ← getCommodity v
+  pure (some ({ st with base := some c }, []))
+
+/-- `parseDate`: `Statement,Data,Period,"<from> - <to>"` -/
+def parsePeriod (st : St) (r : Rec) : Res Out := do
+  let b ← condEq r [(0, "Statement"), (1, "Data"), (2, "Period")]
+  if !b then pure none else do
+  let v ← fld r 3
+  let parts := (splitOnChars " - ".toList v.toList).map String.ofList
+  let d0 ← fld parts 0
+  let _ ← Res.ofOption (parseDate layoutLong d0)
+  let d1 ← fld parts 1
+  let dateTo ← Res.ofOption (parseDate layoutLong d1)
+  pure (some ({ st with dateTo := dateTo }, []))
+
+/-- `parseForex` -/
+def parseForex (a : Accts) (st : St) (r : Rec) : Res Out := do
+  let b ← condEq r [(0, "Trades"), (1, "Data"), (2, "Order"), (3, "Forex")]
+  if !b then pure none else
+  match st.base with
+  | none => .error
+  | some base => do
     let cur ← (fld r 4).bind getCommodity
-    let stock ← (fld r 5).bind getCommodity
+    let sym ← fld r 5
+    let stock ← getCommodity (String.ofList ((sym.toList).takeWhile (· != '.')))
     let d ← (fld r 6).bind (parseDatePrefix10 layoutYMD)
     let qty ← (fld r 7).bind rounded
     let price ← (fld r 8).bind (fun s => Res.ofOption (parseDecimalComma s))
     let proceeds ← (fld r 10).bind rounded
-    let fee ← (fld r 11).bind (fun s => Res.ofOption (newFromString s))
-    return (st, [mkTx d (tradeDesc qty stock price cur)
-      [⟨a.trading, a.account, stock, qty⟩, ⟨a.trading, a.account, cur, proceeds⟩, ⟨a.fee, a.account, cur, fee⟩]
-      (some [stock, cur])])
-  -- parseDepositOrWithdrawal
-  if ← condDeposit r then
-    let cur ← (fld r 2).bind getCommodity
-    let d ← (fld r 3).bind (fun s => Res.ofOption (parseDate layoutYMD s))
-    let q ← (fld r 5).bind rounded
-    let desc := joinWith " " [if 0 < q then "Deposit" else "Withdraw", decStr q, cur]
-    return (st, [mkTx d desc [⟨tbd, a.account, cur, q⟩]])
-  -- parseDividend
-  if (← condSection "Dividends" r) && r.length == 6 then
-    let cur ← (fld r 2).bind getCommodity
-    let d ← (fld r 3).bind (fun s => Res.ofOption (parseDate layoutYMD s))
-    let q ← (fld r 5).bind (fun s => Res.ofOption (parseDecimalComma s))
-    let desc ← fld r 4
-    let sym := firstAlnumRun desc
-    if sym = "" then .error else
-    return (st, [mkTx d desc [⟨a.dividend, a.account, cur, q⟩] (some [sym])])
-  -- parseInterest
-  if (← condSection "Interest" r) && r.length == 6 then
-    let cur ← (fld r 2).bind getCommodity
-    let d ← (fld r 3).bind (fun s => Res.ofOption (parseDate layoutYMD s))
-    let q ← (fld r 5).bind (fun s => Res.ofOption (parseDecimalComma s))
-    let desc ← fld r 4
-    return (st, [mkTx d desc [⟨a.interest, a.account, cur, q⟩] (some [cur])])
-  -- parseWithholdingTax
-  if ← condSection "Withholding Tax" r then
-    let desc ← fld r 4
-    let cur ← (fld r 2).bind getCommodity
-    let d ← (fld r 3).bind (fun s => Res.ofOption (parseDate layoutYMD s))
-    let q ← (fld r 5).bind (fun s => Res.ofOption (parseDecimalComma s))
-    let sym := firstAlnumRun desc
-    if sym = "" then .error else
-    return (st, [mkTx d desc [⟨a.tax, a.account, cur, q⟩] (some [sym])])
-  -- createAssertions
-  if ← condEq r [(0, "Open Positions"), (1, "Data"), (2, "Summary")] then
-    if st.dateTo = 0 then .error else
-    let sym ← (fld r 5).bind getCommodity
-    let q ← (fld r 6).bind (fun s => Res.ofOption (newFromString s))
-    return (st, [.assertion { date := st.dateTo, balances := [⟨a.account, q, sym⟩] }])
-  -- createCurrencyAssertions
-  if ← condEq r [(0, "Forex Balances"), (1, "Data"), (2, "Forex")] then
-    if st.dateTo = 0 then .error else
-    let sym ← (fld r 4).bind getCommodity
-    let q ← (fld r 5).bind rounded
-    return (st, [.assertion { date := st.dateTo, balances := [⟨a.account, q, sym⟩] }])
-  return (st, [])
+    let fee ← (fld r 11).bind rounded
+    let ps : List PB := [⟨a.trading, a.account, stock, qty⟩, ⟨a.trading, a.account, cur, proceeds⟩] ++
+      (if fee = 0 then [] else [⟨a.fee, a.account, base, fee⟩])
+    pure (some (st, [mkTx d (tradeDesc qty stock price cur) ps (some [stock, cur])]))
+
+/-- `parseTrade` -/
+def parseTrade (a : Accts) (st : St) (r : Rec) : Res Out := do
+  let b ← condEq r [(0, "Trades"), (1, "Data"), (2, "Order"), (3, "Stocks")]
+  if !b then pure none else do
+  let cur ← (fld r 4).bind getCommodity
+  let stock ← (fld r 5).bind getCommodity
+  let d ← (fld r 6).bind (parseDatePrefix10 layoutYMD)
+  let qty ← (fld r 7).bind rounded
+  let price ← (fld r 8).bind (fun s => Res.ofOption (parseDecimalComma s))
+  let proceeds ← (fld r 10).bind rounded
+  let fee ← (fld r 11).bind (fun s => Res.ofOption (newFromString s))
+  pure (some (st, [mkTx d (tradeDesc qty stock price cur)
+    [⟨a.trading, a.account, stock, qty⟩, ⟨a.trading, a.account, cur, proceeds⟩, ⟨a.fee, a.account, cur, fee⟩]
+    (some [stock, cur])]))
+
+/-- `parseDepositOrWithdrawal` -/
+def parseDeposit (a : Accts) (st : St) (r : Rec) : Res Out := do
+  let b ← condDeposit r
+  if !b then pure none else do
+  let cur ← (fld r 2).bind getCommodity
+  let d ← (fld r 3).bind (fun s => Res.ofOption (parseDate layoutYMD s))
+  let q ← (fld r 5).bind rounded
+  let desc := joinWith " " [if 0 < q then "Deposit" else "Withdraw", decStr q, cur]
+  pure (some (st, [mkTx d desc [⟨tbd, a.account, cur, q⟩]]))
+
+/-- `parseDividend` -/
+def parseDividend (a : Accts) (st : St) (r : Rec) : Res Out := do
+  let b ← condSection "Dividends" r
+  if !(b && r.length == 6) then pure none else do
+  let cur ← (fld r 2).bind getCommodity
+  let d ← (fld r 3).bind (fun s => Res.ofOption (parseDate layoutYMD s))
+  let q ← (fld r 5).bind (fun s => Res.ofOption (parseDecimalComma s))
+  let desc ← fld r 4
+  let sym := firstAlnumRun desc
+  if sym = "" then .error else
+  pure (some (st, [mkTx d desc [⟨a.dividend, a.account, cur, q⟩] (some [sym])]))
+
+/-- `parseInterest` -/
+def parseInterest (a : Accts) (st : St) (r : Rec) : Res Out := do
+  let b ← condSection "Interest" r
+  if !(b && r.length == 6) then pure none else do
+  let cur ← (fld r 2).bind getCommodity
+  let d ← (fld r 3).bind (fun s => Res.ofOption (parseDate layoutYMD s))
+  let q ← (fld r 5).bind (fun s => Res.ofOption (parseDecimalComma s))
+  let desc ← fld r 4
+  pure (some (st, [mkTx d desc [⟨a.interest, a.account, cur, q⟩] (some [cur])]))
+
+/-- `parseWithholdingTax` -/
+def parseWithholdingTax (a : Accts) (st : St) (r : Rec) : Res Out := do
+  let b ← condSection "Withholding Tax" r
+  if !b then pure none else do
+  let desc ← fld r 4
+  let cur ← (fld r 2).bind getCommodity
+  let d ← (fld r 3).bind (fun s => Res.ofOption (parseDate layoutYMD s))
+  let q ← (fld r 5).bind (fun s => Res.ofOption (parseDecimalComma s))
+  let sym := firstAlnumRun desc
+  if sym = "" then .error else
+  pure (some (st, [mkTx d desc [⟨a.tax, a.account, cur, q⟩] (some [sym])]))
+
+/-- `createAssertions`: open positions at the end of the period -/
+def createAssertions (a : Accts) (st : St) (r : Rec) : Res Out := do
+  let b ← condEq r [(0, "Open Positions"), (1, "Data"), (2, "Summary")]
+  if !b then pure none else
+  if st.dateTo = 0 then .error else do
+  let sym ← (fld r 5).bind getCommodity
+  let q ← (fld r 6).bind (fun s => Res.ofOption (newFromString s))
+  pure (some (st, [.assertion { date := st.dateTo, balances := [⟨a.account, q, sym⟩] }]))
+
+/-- `createCurrencyAssertions`: forex balances at the end of the period -/
+def createCurrencyAssertions (a : Accts) (st : St) (r : Rec) : Res Out := do
+  let b ← condEq r [(0, "Forex Balances"), (1, "Data"), (2, "Forex")]
+  if !b then pure none else
+  if st.dateTo = 0 then .error else do
+  let sym ← (fld r 4).bind getCommodity
+  let q ← (fld r 5).bind rounded
+  pure (some (st, [.assertion { date := st.dateTo, balances := [⟨a.account, q, sym⟩] }]))
+
+/-- the first parser that handles the record decides; an unhandled record is skipped -/
+def tryAll : List (St → Rec → Res Out) → St → Rec → Res (St × List Directive)
+  | [], st, _ => .ok (st, [])
+  | p :: ps, st, r => (p st r).bind (fun o =>
+    match o with
+    | some x => .ok x
+    | none => tryAll ps st r)
+
+/-- the parsers of `readLine`, in its order -/
+def parsers (a : Accts) : List (St → Rec → Res Out) :=
+  [parseBaseCurrency, parsePeriod, parseForex a, parseTrade a, parseDeposit a, parseDividend a, parseInterest a,
+   parseWithholdingTax a, createAssertions a, createCurrencyAssertions a]
+
+/-- `readLine` -/
+def step (a : Accts) (st : St) (r : Rec) : Res (St × List Directive) := tryAll (parsers a) st r
 
 def run' (a : Accts) : St → List Rec → Res (List Directive)
   | _, [] => .ok []
